@@ -46,7 +46,9 @@ def programs(tier):
     names = list(FRAGMENTS)
     if tier == "quick":
         names = [n for n in names if n not in ("nonascii-string-same-line", "lambda-shadow")]
-        subsets = [c for r in (1, 2) for c in itertools.combinations(names, r)]
+        # a rename request costs a server session (several seconds): quick takes every single fragment and every pair
+        # that contains one of the two same-line-shadowing fragments; thorough every subset of <= 3 fragments
+        subsets = [c for r in (1, 2) for c in itertools.combinations(names, r) if r == 1 or any(n.startswith("same-line-") and "shadow" in n for n in c)]
     else:
         # every subset of <= 3 fragments (a rename request costs a server session, ~2.5 s: all 511 subsets would be ~10 000 sessions)
         subsets = [c for r in (1, 2, 3) for c in itertools.combinations(names, r)]
